@@ -49,7 +49,12 @@ func ReimportRandom(outDir string, seed int64, n, depth int) (int, error) {
 
 func reimportHistory(ws map[string]*tracew.Writer, seed int64, run, depth int) error {
 	r := rand.New(rand.NewSource(seed))
-	c, btcKey, err := NewLockingChainKey(seed%5, LockingOpts{PowerReduction: 1, MaxVals: 2, NVals: 5}, r)
+	// every other history has relayer elections (membership really changes: on-boarding, off-boarding, re-joining accounts)
+	o := LockingOpts{PowerReduction: 1, MaxVals: 2, NVals: 5}
+	if seed%2 == 0 {
+		o.RelayerPeriod, o.RelayerTimeout = 4, 3
+	}
+	c, btcKey, err := NewLockingChainKey(seed%5, o, r)
 	if err != nil {
 		return err
 	}
@@ -75,6 +80,7 @@ func reimportHistory(ws map[string]*tracew.Writer, seed int64, run, depth int) e
 		f["ev"], f["run"] = "export", run
 		ws["export"].Emit(f)
 	}
+	var removed []int
 	for b := 0; b < depth; b++ {
 		lp := lg.plan()
 		bp, err := bg.plan("")
@@ -83,14 +89,23 @@ func reimportHistory(ws map[string]*tracew.Writer, seed int64, run, depth int) e
 		}
 		lp.Bridge, lp.BridgeAbs, lp.Txs = bp.Bridge, bp.BridgeAbs, bp.Txs
 		// relayer membership traffic: pending voters, boarding queues
-		if r.Intn(4) == 0 {
+		if r.Intn(4) == 0 || (o.RelayerPeriod > 0 && r.Intn(2) == 0) {
 			rr := &goattypes.RelayerRequests{}
 			for k := 1 + r.Intn(2); k > 0; k-- {
-				m := s.member(1 + r.Intn(7))
+				id := 1 + r.Intn(7)
+				if len(removed) > 0 && r.Intn(2) == 0 {
+					id = removed[r.Intn(len(removed))] // a former member (its account exists) asks to join again
+				}
+				m := s.member(id)
 				rr.Adds = append(rr.Adds, &goattypes.AddVoterRequest{Voter: m.EthAddr(), Pubkey: common.BytesToHash(m.BlsPKH)})
 			}
 			if r.Intn(3) == 0 {
-				rr.Removes = append(rr.Removes, &goattypes.RemoveVoterRequest{Voter: s.member(1 + r.Intn(7)).EthAddr()})
+				id := 1 + r.Intn(7)
+				if vc, err := s.voteCtx(); err == nil && len(vc.Voters) > 0 && r.Intn(2) == 0 {
+					id = vc.Voters[r.Intn(len(vc.Voters))]
+				}
+				removed = append(removed, id)
+				rr.Removes = append(rr.Removes, &goattypes.RemoveVoterRequest{Voter: s.member(id).EthAddr()})
 			}
 			lp.Relayer = rr
 		}
